@@ -184,16 +184,21 @@ def run(ctx):
             meta["_ts"] = dpart + tpart
         with_enq = r.random() < 0.5
         fmt = r.choice(["astm", "astm", "lis2a", "json"])
-        evs = ([("d", gens.ENQ)] if with_enq else []) + [("d", line), ("d", gens.ENQ), ("d", gens.EOT)]
-        cases.append((kind, meta, fmt, evs, with_enq))
+        pre = [("d", gens.ENQ)] if with_enq else []
+        if with_enq and r.random() < 0.25:
+            # an intermediate frame whose continuation never comes is pending when the line arrives
+            pre.append(("d", gens.frame(1, gens.text_bytes(r, r.randrange(1, 9)), final=False)))
+        evs = pre + [("d", line), ("d", gens.ENQ), ("d", gens.EOT)]
+        cases.append((kind, meta, fmt, evs, len(pre)))
     lines = ["vrecv %s %s %s" % (fmt, hexb(NOW.strftime("%Y%m%d%H%M%S").encode()), " ".join(gens.ev_hex(e) for e in evs))
              for kind, meta, fmt, evs, _ in cases]
     model = common.drive(lines) if ctx.driver_ok else [None] * len(lines)
     for (kind, meta, fmt, evs, with_enq), ml in zip(cases, model):
         obs, conn = run_real(fmt, evs)
-        i = 1 if with_enq else 0
+        i = with_enq            # (the number of units in front of the line)
         ob = obs[i]
-        case = {"kind": kind, "line": hexb(evs[i][1]), "with_enq": with_enq, "format": fmt}
+        case = {"kind": kind, "line": hexb(evs[i][1]), "with_enq": bool(with_enq), "pending_intermediate_frame": with_enq == 2,
+                "format": fmt}
         rich = kind == "spot" or (sum(1 for t in MINI_TAGS if t in meta) >= 3 and "td" in meta and "tt" in meta)
         s.case(case, nontrivial=rich)
         s.count(kind)
